@@ -3,7 +3,7 @@
    sumbool, sumor, comparison); no Extract Constant. *)
 Require Import ExtrOcamlBasic.
 From RaftLog Require Import Base.Bytes Base.Crc32 Model.Types Model.Codec Model.Cache
-  Model.Core Model.Recover Model.Run Model.Sys Model.Names Model.Lock Spec.Spec Spec.Hist.
+  Model.Core Model.Recover Model.Dump Model.Run Model.Sys Model.Names Model.Lock Spec.Spec Spec.Hist.
 Extraction Language OCaml.
 Extraction "model.ml"
   enc_record dec_record rec_size crc32
@@ -12,4 +12,5 @@ Extraction "model.ml"
   spec_wop wop_legal
   zstep zinit sys2_of process_crash_image
   chunk_file_name parse_chunk_file_name
+  dump_ref dump_dir
   l_init lstep.
